@@ -103,7 +103,7 @@ def ext_kind(name):
             or "ops::Index<I> for [T; N]>::index" in n or "ops::IndexMut<I> for [T; N]>::index_mut" in n \
             or "Vec<T, A> as core::ops::Index<I>>::index" in n or "Vec<T, A> as core::ops::IndexMut<I>>::index_mut" in n:
         return "view"
-    if n.endswith("::copy_from_slice") or n.endswith("::clone_from_slice"):
+    if n.endswith("::copy_from_slice") or n.endswith("::clone_from_slice") or n.endswith("]>::fill"):
         return "copy"
     if n.endswith("::extend_from_slice"):
         return "copy"
@@ -115,7 +115,9 @@ def ext_kind(name):
             or n.endswith("::as_slice") or n.endswith("::as_mut_slice") or n.endswith("::as_mut"):
         return "view0"
     if n.endswith("::into_iter") or n.endswith("]>::iter") or n.endswith("]>::iter_mut") or n.endswith("::rev") \
-            or n.endswith("::zip") or n.endswith("]>::chunks") or n.endswith("::enumerate") or n.endswith("::skip") \
+            or n.endswith("::zip") or n.endswith("]>::chunks") or n.endswith("]>::chunks_exact") or n.endswith("]>::chunks_mut") \
+            or n.endswith("]>::chunks_exact_mut") or n.endswith("]>::windows") or n.endswith("::by_ref") \
+            or n.endswith("::enumerate") or n.endswith("::skip") \
             or n.endswith("::take") or n.endswith("::step_by") or n.endswith("RangeInclusive::<Idx>::new"):
         return "iter"
     if n.endswith("Iterator>::next") or n.endswith("::next") and "iter" in n:
@@ -844,6 +846,75 @@ class FnAnalysis:
         self.write_dest(dest, allv, st, allp or None)
 
     def call_external(self, name, callee, argv, dest, st, extra, line, t):
+        self._call_external_core(name, callee, argv, dest, st, extra, line, t)
+        # closures handed to a std combinator (Option::filter / map / and_then, bool::then, Iterator::all / any / map,
+        # sort_by ...) are called by it: their sinks, their writes through captured references and what their result
+        # depends on (check facts made inside them included) are accounted for at this call site
+        for i, (l, p, op) in enumerate(argv):
+            cf = self._closure_of(op)
+            if cf is None:
+                continue
+            others = [a for j, a in enumerate(argv) if j != i]
+            self._apply_closure(cf, argv[i], others, dest, st, extra, line)
+
+    def _closure_of(self, op):
+        if op is None or op[0] not in ("cp", "mv") or len(op[1]) != 1:
+            return None
+        td = self.f.ty(self.fn["locals"][op[1][0]][0])
+        for _ in range(3):
+            if td.get("k") in ("ref", "ptr"):
+                td = self.f.ty(td["to"])
+        if td.get("k") == "closure":
+            return self.f.fns.get(td.get("path"))
+        return None
+
+    def _apply_closure(self, target, cl_arg, others, dest, st, extra, line):
+        summ = self.eng.summary(target)
+        if summ.conservative:
+            return
+        # argument vector of the closure body: _1 = environment (by value or by reference), _2.. = what the combinator
+        # passes: unknown, approximated by everything reachable from the combinator's other arguments
+        ol, op_ = EMPTY, set()
+        oop = None
+        for (l, p, o) in others:
+            ol |= l | self.pointee_labels(p, st)
+            if p:
+                op_ |= p
+            if oop is None:
+                oop = o
+        l0, p0, o0 = cl_arg
+        env_td = self.f.ty(target["locals"][1][0]) if target["argc"] >= 1 else {}
+        if env_td.get("k") in ("ref", "ptr") and o0[0] in ("cp", "mv") and len(o0[1]) == 1 \
+                and self.f.ty(self.fn["locals"][o0[1][0]][0]).get("k") == "closure":
+            env = (l0, set([(o0[1][0], ())]), o0)        # by-value closure local passed where the body takes &env
+        else:
+            env = (l0, p0, o0)
+        cargv = [env] + [(ol, set(op_) or None, oop)] * max(0, target["argc"] - 1)
+        for (kind, site, detail), labels in summ.sinks.items():
+            if not self.pol.interesting_sink(kind):
+                continue
+            mine = self.subst(labels, cargv, st)
+            if mine:
+                self.sink(kind, (line, target["name"], site), mine, detail)
+        for (i, path), labels in sorted(summ.out.items(), key=lambda kv: len(kv[0][1])):
+            if i - 1 >= len(cargv):
+                continue
+            lab = self.subst(labels, cargv, st) | extra
+            l, p, o = cargv[i - 1]
+            if p:
+                for (r, pp) in p:
+                    self.st_write(st, (r, trunc(pp + path)), lab, False)
+        ret = summ.ret
+        for v in summ.ret_cells.values():
+            ret = ret | v
+        rl = self.subst(ret, cargv, st)
+        if rl and dest:
+            cells, _strong, _ = self.cells_of(dest, st)
+            for (r, pp) in cells:
+                self.st_write(st, (r, pp), rl | extra, False)
+                self.st_write(st, (r, trunc(pp + ("D",))), rl | extra, False)
+
+    def _call_external_core(self, name, callee, argv, dest, st, extra, line, t):
         kind = ext_kind(name)
         vals = EMPTY
         for (l, p, op) in argv:
@@ -917,6 +988,17 @@ class FnAnalysis:
                 else:
                     inner2.add((r, pp))
             elemp = set((r, trunc(pp + ("[]",))) if (len(pp) < DEPTH and (not pp or pp[-1] != "[]")) else (r, pp) for r, pp in inner2)
+            if self._slice_iterator(argv[0][2]):
+                # an iterator over slices / arrays (Iter, IterMut, Chunks*, and Zip / Enumerate / Rev of those): whether it
+                # yields another item depends on lengths and positions only (public); the item itself carries the data
+                cells, strong, _ = self.cells_of(dest, st)
+                for (r, pp) in cells:
+                    if strong:
+                        self.st_write(st, (r, pp), EMPTY, True)
+                    self.st_write(st, (r, trunc(pp + ("D",))), extra, strong)
+                    self.st_write(st, (r, trunc(pp + ("v1", 0))), itl | l0 | extra, strong)
+                self.write_dest(dest, EMPTY, st, elemp or None, keep=True)
+                return
             self.write_dest(dest, itl | l0 | extra, st, elemp or None)
             return
         if kind == "rng":
@@ -991,6 +1073,18 @@ class FnAnalysis:
             return
         self.eng.unmodelled[name] = self.eng.unmodelled.get(name, 0) + 1
         self.call_default(name, argv, dest, st, extra, line)
+
+    def _slice_iterator(self, op):
+        """is the `&mut iterator` operand an iterator over slices / arrays only (no Range / counter inside)?"""
+        if op is None or op[0] not in ("cp", "mv") or len(op[1]) != 1:
+            return False
+        td = self.f.ty(self.fn["locals"][op[1][0]][0])
+        if td.get("k") in ("ref", "ptr"):
+            td = self.f.ty(td["to"])
+        s_ = td.get("s", "")
+        if "Range" in s_ or "StepBy" in s_ or "Map<" in s_ or "Filter" in s_ or "TakeWhile" in s_ or "SkipWhile" in s_:
+            return False
+        return "slice::iter::" in s_ or "slice::Iter" in s_ or "Chunks" in s_ or "array::iter" in s_
 
     def _is_mut_ref(self, op):
         if op[0] in ("cp", "mv") and len(op[1]) == 1:
